@@ -213,7 +213,8 @@ func vc18pInconclusive(t *rapid.T, format string, args ...any) {
 func TestVerifC18Pipeline(t *testing.T) {
 	st := vstat.New("C18", "pipeline.bursts",
 		"rapid bursts of 1..20 pipelined queries on one connection to a real ServerDNS (TCP) or ServerTLS with MaxPipelineCount 1..4 and a handler parked on a harness channel, released in drawn batches; written in one piece, per message or in odd chunks; optional client close in mid-burst; non-trivial = burst larger than the limit; distinct by (transport, limit, burst, write mode, release plan)",
-		"burst>limit", "burst<=limit", "tcp", "tls", "saturated-with-backlog", "early-close")
+		"burst>limit", "burst<=limit", "burst=limit", "burst=limit+1", "tcp", "tls", "saturated-with-backlog", "early-close", "early-reset",
+		"second-connection-full-while-first-full")
 	st.Finish(t)
 
 	env := &vc18pEnv{
@@ -242,6 +243,8 @@ func vc18pCase(t *rapid.T, st *vstat.Stats, env *vc18pEnv, grace time.Duration) 
 	).Draw(t, "burst")
 	writeMode := rapid.SampledFrom([]string{"one-write", "per-message", "chunks"}).Draw(t, "writeMode")
 	earlyClose := rapid.IntRange(0, 7).Draw(t, "earlyClose") == 0
+	reset := rapid.Bool().Draw(t, "reset")
+	companion := rapid.IntRange(0, 3).Draw(t, "companion") == 0
 
 	srv, err := env.server(useTLS, limit, 0)
 	if err != nil {
@@ -488,10 +491,32 @@ func vc18pCase(t *rapid.T, st *vstat.Stats, env *vc18pEnv, grace time.Duration) 
 		classes = append(classes, "burst<=limit")
 	}
 
+	switch burst {
+	case limit - 1:
+		classes = append(classes, "burst=limit-1")
+	case limit:
+		classes = append(classes, "burst=limit")
+	case limit + 1:
+		classes = append(classes, "burst=limit+1")
+	}
+
 	classes = append(classes, "write:"+writeMode, fmt.Sprintf("limit=%d", limit))
+
+	// A second client of the same server while the first one is parked: the
+	// limit is per connection, so each connection is bounded on its own.
+	if companion {
+		classes = append(classes, vc18pCompanion(t, env, srv, limit, burst > limit, grace, desc)...)
+		state()
+	}
 
 	if earlyClose {
 		classes = append(classes, "early-close")
+		if tc, ok := conn.(*net.TCPConn); ok && reset {
+			// Abort instead of closing: the server sees a reset.
+			classes = append(classes, "early-reset")
+			_ = tc.SetLinger(0)
+		}
+
 		_ = conn.Close()
 		drainAll()
 		window()
@@ -557,4 +582,109 @@ func vc18pCase(t *rapid.T, st *vstat.Stats, env *vc18pEnv, grace time.Duration) 
 	if burst > limit && st.WantSample() {
 		st.Sample(map[string]any{"tls": useTLS, "limit": limit, "burst": burst, "write": writeMode, "early_close": earlyClose, "releases": plan})
 	}
+}
+
+// vc18pCompanion opens another connection to srv, sends a few queries that the
+// handler parks as well, checks the bound on that connection and lets them go.
+// Whether the second connection is served while the first is saturated is
+// recorded, not judged.
+func vc18pCompanion(
+	t *rapid.T,
+	env *vc18pEnv,
+	srv *vc18pSrv,
+	limit int,
+	firstFull bool,
+	grace time.Duration,
+	desc func() string,
+) (classes []string) {
+	n := rapid.IntRange(1, limit+3).Draw(t, "companionBurst")
+
+	env.mu.Lock()
+	env.nextID++
+	id := env.nextID
+	env.mu.Unlock()
+
+	c := &vc18pConn{
+		id:      id,
+		limit:   limit,
+		release: make(chan struct{}, n),
+		drain:   make(chan struct{}),
+		remotes: map[string]bool{},
+		changed: make(chan struct{}, 1),
+	}
+
+	env.h.mu.Lock()
+	env.h.conns[id] = c
+	env.h.mu.Unlock()
+
+	var conn net.Conn
+	var err error
+	d := &net.Dialer{Timeout: vc18pWait}
+	if srv.tls {
+		conn, err = tls.DialWithDialer(d, "tcp", srv.addr, env.tlsConf)
+	} else {
+		conn, err = d.Dial("tcp", srv.addr)
+	}
+
+	if err != nil {
+		vc18pInconclusive(t, "companion dial %s: %v", srv.addr, err)
+	}
+
+	defer func() {
+		close(c.drain)
+		_ = conn.Close()
+
+		env.h.mu.Lock()
+		delete(env.h.conns, id)
+		env.h.mu.Unlock()
+	}()
+
+	var wire []byte
+	for i := 1; i <= n; i++ {
+		m := (&dns.Msg{}).SetQuestion(fmt.Sprintf("q%d.c%d.c18.test.", i, id), dns.TypeA)
+		m.Id = uint16(i)
+		b, perr := m.Pack()
+		if perr != nil {
+			t.Fatalf("harness: packing: %v", perr)
+		}
+
+		wire = binary.BigEndian.AppendUint16(wire, uint16(len(b)))
+		wire = append(wire, b...)
+	}
+
+	_ = conn.SetWriteDeadline(time.Now().Add(vc18pWait))
+	if _, werr := conn.Write(wire); werr != nil {
+		vc18pInconclusive(t, "%s: companion: writing: %v", desc(), werr)
+	}
+
+	state := func() (entered int) {
+		c.mu.Lock()
+		defer c.mu.Unlock()
+
+		if c.max > limit {
+			t.Fatalf("%s: second connection with %d queries: %d of them were inside the handler at the same time, limit %d", desc(), n, c.max, limit)
+		}
+
+		return c.entered
+	}
+
+	want := min(n, limit)
+	end := time.Now().Add(2 * time.Second)
+	for state() < want && time.Now().Before(end) {
+		select {
+		case <-c.changed:
+		case <-time.After(2 * time.Millisecond):
+		}
+	}
+
+	time.Sleep(grace)
+	classes = append(classes, "second-connection")
+	switch {
+	case state() < want:
+		classes = append(classes, "second-connection-not-served-in-2s")
+	case firstFull:
+		classes = append(classes, "second-connection-full-while-first-full")
+	}
+
+	return classes
 }
